@@ -2,7 +2,7 @@
 import re
 from .runner import Prop
 from . import core
-from gen import trees
+from gen import trees, text
 
 COMMON_ASSUME = ['the model corresponds to the code only as far as the generated cases exercise it (differential test, not a proof)',
                  'Rust std, rustc and the crates of Cargo.lock behave as documented']
@@ -104,4 +104,57 @@ class C08(Prop):
         return [(c, 'release') for c in trees.gen_illformed(tier, R)]
 
 
-ALL = {c.pid: c for c in (C03, C04, C05, C06, C08, C10, C11)}
+class C01(Prop):
+    pid = 'C01'
+    k_fields = ['R']
+    o_fields = ['expect', 'reparse']
+    rule = ('trees: every (outer, inner) pair of the 15 binary operators with the inner one on the left, on the right and on both sides, every operator '
+            'under/over both unary operators, calls and arrays around them, random trees to depth 6 (12); each rendered with minimal, full and random '
+            'redundant parentheses and random layout, carrying the expected tree; plus accepted non-canonical texts (dropped/trailing commas); oracle on the '
+            'implementation: compile(render t) == t, and compile(s) = Ok t => compile(render_min t) = compile(render_full t) = Ok t with the harness\' own '
+            'renderer; correspondence: compile result (tree or error variant + token) against the extracted scanner+Pratt model')
+    assumptions = COMMON_ASSUME
+
+    def gen(self, tier, R):
+        return [(c, 'release') for c in text.gen_roundtrip(tier, R)]
+
+    def nontrivial(self, line, k):
+        return k.startswith('R=ok')
+
+
+class C02(Prop):
+    pid = 'C02'
+    k_fields = ['R']
+    o_fields = ['expect', 'layout', 'tree']
+    rule = ('token sequences: every ordered pair from 33 representative tokens (all punctuation, all keywords, the four number spellings, strings, '
+            'identifiers incl. non-ASCII), random sequences of up to 8 tokens with random decimal numbers (boundary, halfway, subnormal, 400-digit, random '
+            'bit patterns printed exactly), string contents over quotes/comment markers/controls/astral characters; each printed twice with independent '
+            'random separators (whitespace, // comments, nested { } comments, unterminated trailing comments) and keyword case; all 2^n case masks of each '
+            'keyword; a malformed stream; oracle: both layouts scan and compile identically and equal the intended token list with exact literal payloads '
+            '(number = Python-rounded nearest double); the model\'s character classification is compared with Rust\'s over the code space')
+    assumptions = COMMON_ASSUME + ["Python's float() is correctly rounded (independent reference for the nearest double)"]
+
+    def gen(self, tier, R):
+        return [(c, 'release') for c in text.gen_layout(tier, R)]
+
+    def nontrivial(self, line, k):
+        return k.startswith('R=ok')
+
+
+class C07(Prop):
+    pid = 'C07'
+    k_fields = ['R']
+    o_fields = []
+    isolate = True
+    per_case_timeout = 0.25
+    rule = ('all sequences of up to 3 (4) lexical fragments from a 37-fragment alphabet (every token, quote, comment markers, dot, non-ASCII letter/digit/symbol), '
+            'every third (every) prefix and single-character mutations/deletions of rendered scripts, unbalanced delimiters, unary chains and comment/string '
+            'openers nested 1..65 deep, random Unicode text; the implementation runs in child processes with crash isolation and a per-case time cap: a crash, '
+            'abort, stack overflow or hang is a violation; outcome (tree or error kind + payload) compared with the model')
+    assumptions = COMMON_ASSUME + ['stack bytes per recursion level and wall-clock time are observed on the real code, not proved']
+
+    def gen(self, tier, R):
+        return [(c, 'release') for c in text.gen_total(tier, R)]
+
+
+ALL = {c.pid: c for c in (C01, C02, C03, C04, C05, C06, C07, C08, C10, C11)}
